@@ -692,3 +692,92 @@ Proof.
       apply mailbox_b_spec in M. destruct M as [_ M]. contradiction.
     + apply Z.eqb_neq in E0. apply io_error_b_spec. apply E. lia.
 Qed.
+
+(** * The reply to RCPT TO *)
+Lemma nouser_pre_550 : exists t, VP_NOUSER_PRE = REPLY_550 ++ t.
+Proof. eexists. reflexivity. Qed.
+
+Theorem rcpt_reply_sound db fs vb domain local :
+  let l := map to_lower local in
+  let d := map to_lower domain in
+  domain_found db d ->
+  match fst (addrparse_rcpt db fs vb local domain) with
+  | RAccept => mailbox fs vb l
+  | RNoUser text => ~ mailbox fs vb l /\ exists t, text = REPLY_550 ++ t
+  | RError e => 0 < e /\ io_error fs vb l
+  end.
+Proof.
+  cbv zeta. intros DF. unfold addrparse_rcpt. cbn [fst].
+  pose proof (user_exists_sound db fs vb _ (map to_lower local) DF) as [A [B C]]. cbv zeta in A, B, C.
+  set (z := rc (user_exists db fs vb (map to_lower domain) (map to_lower local))) in *.
+  destruct (z <? 0) eqn:L.
+  - apply Z.ltb_lt in L. split; [lia|now apply C].
+  - apply Z.ltb_ge in L. destruct (z =? 0) eqn:E.
+    + apply Z.eqb_eq in E. split; [now apply B|]. destruct nouser_pre_550 as [t ->].
+      eexists. rewrite <- app_assoc. reflexivity.
+    + apply Z.eqb_neq in E. apply A. lia.
+Qed.
+
+Theorem rcpt_reply_exact db fs vb domain local :
+  let l := map to_lower local in
+  let d := map to_lower domain in
+  domain_found db d -> ~ io_error fs vb l ->
+  let r := fst (addrparse_rcpt db fs vb local domain) in
+  (r = RAccept <-> mailbox fs vb l) /\
+  (~ mailbox fs vb l <-> exists t, r = RNoUser (REPLY_550 ++ t)).
+Proof.
+  cbv zeta. intros DF NE. pose proof (rcpt_reply_sound db fs vb domain local DF) as S. cbv zeta in S.
+  destruct (fst (addrparse_rcpt db fs vb local domain)) as [|text|e].
+  - split; [tauto|]. split; [tauto|]. intros [t H]. discriminate.
+  - destruct S as [NM [t ->]]. split; [split; [discriminate|tauto]|]. split; eauto.
+  - destruct S as [_ S]. contradiction.
+Qed.
+
+Definition rcpt_obs (r : rcpt_reply) : Z * bytes :=
+  match r with RAccept => (0, []) | RNoUser t => (-1, t) | RError e => (e, []) end.
+
+Lemma starts_550 l d : starts_with REPLY_550 (VP_NOUSER_PRE ++ (l ++ AT :: d) ++ VP_NOUSER_POST) = true.
+Proof. reflexivity. Qed.
+
+Theorem model_passes_rcpt_checker db lay vbfile domain local :
+  let ro := addrparse_rcpt db (fs_of_layout lay) (vpopbounce_of vbfile) local domain in
+  spec_ok_C13_rcpt db lay vbfile domain local (fst (rcpt_obs (fst ro))) (snd (rcpt_obs (fst ro)))
+    (conf_of (snd ro)) (probes (snd ro)) = true.
+Proof.
+  cbv zeta. unfold addrparse_rcpt. cbn [fst snd].
+  set (fs := fs_of_layout lay). set (vb := vpopbounce_of vbfile).
+  set (l := map to_lower local). set (d := map to_lower domain).
+  pose proof (user_exists_confined db fs vb d l) as [CF UD]. cbv zeta in CF, UD.
+  unfold spec_ok_C13_rcpt. fold fs vb l d. apply confined_b_spec in CF. rewrite CF. rewrite andb_true_l.
+  assert (CO : (conf_of (user_exists db fs vb d l) <=? 1)%N = true).
+  { unfold conf_of. destruct (userdir _); reflexivity. }
+  rewrite CO. rewrite andb_true_l. clear CF UD CO.
+  unfold user_exists. destruct (refused l) eqn:R.
+  { apply refused_true in R. destruct (component_b l) eqn:C; [apply component_b_spec in C; contradiction|].
+    simpl negb. match goal with |- (if true then ?B else _) = true => change (B = true) end.
+    cbn [rc probes]. change (0 <? 0) with false. change (0 =? 0) with true. cbn [rcpt_obs fst snd nil_b].
+    rewrite starts_550. reflexivity. }
+  apply refused_false in R. pose proof R as C. apply component_b_spec in C. rewrite C. simpl negb.
+  match goal with |- (if false then _ else ?B) = true => change (B = true) end.
+  rewrite vget_dir_eq. destruct (VP_CDBKEY <=? length d + 3)%nat eqn:G; [reflexivity|].
+  destruct (domain_state db d) as [[| |]|] eqn:S.
+  - cbn [dom_errno].
+    pose proof (in_domain_sound fs vb l) as [A [B E]]. cbv zeta in A, B, E.
+    set (o := in_domain fs vb l) in *.
+    destruct (rc o <? 0) eqn:L.
+    + apply Z.ltb_lt in L. cbn [rcpt_obs fst snd].
+      assert (N0 : (- rc o =? 0) = false) by (apply Z.eqb_neq; lia).
+      assert (N1 : (- rc o =? -1) = false).
+      { apply Z.eqb_neq. intros H. assert (rc o = 1) by lia. lia. }
+      rewrite N0, N1. apply andb_true_iff. split; [apply Z.ltb_lt; lia|]. apply io_error_b_spec. now apply E.
+    + apply Z.ltb_ge in L. destruct (rc o =? 0) eqn:E0.
+      * apply Z.eqb_eq in E0. cbn [rcpt_obs fst snd]. change (-1 =? 0) with false. change (-1 =? -1) with true.
+        rewrite starts_550, andb_true_r. destruct (mailbox_b fs vb l) eqn:M; [|reflexivity].
+        apply mailbox_b_spec in M. destruct M as [_ M]. exfalso. now apply (B E0).
+      * apply Z.eqb_neq in E0. cbn [rcpt_obs fst snd nil_b]. change (0 =? 0) with true. rewrite andb_true_r.
+        assert (P : 0 < rc o) by lia. specialize (A P). destruct (code_form_forms _ _ _ _ A) as [F _].
+        apply mailbox_b_spec. now split.
+  - reflexivity.
+  - reflexivity.
+  - reflexivity.
+Qed.
